@@ -258,9 +258,13 @@ def check(ctx: Ctx) -> None:
     ctx.ob("C19.tree", "TreeSchema::post_load", out[0] == "ret" and isinstance(out[1], Obj) and out[1].cls == "lark.Tree" and out[1].fields.get("data") == "and_composition"
            and len(out[1].fields.get("children") or []) == 3, f"TreeSchema.{h.name} gives {out[:2]}", file=ts.file, line=h.node.lineno, function=h.qualname)
     h = post_load_hook(model, tok, "post_load")
-    out = run_hook(model, h, tok.qualname, lambda it: {"type": "CONDITION_KEY", "value": "17"})
-    ctx.ob("C19.tree", "TokenSchema::post_load", out[0] == "ret" and isinstance(out[1], Obj) and out[1].cls == "lark.Token" and out[1].fields == {"type": "CONDITION_KEY", "value": "17"},
-           f"TokenSchema.{h.name} gives {out[:2]}", file=tok.file, line=h.node.lineno, function=h.qualname)
+    # token values are text: whatever the grammars can put there comes back unchanged (leading zeros, padding, case, symbols)
+    for ttype, tvalue in (("CONDITION_KEY", "17"), ("CONDITION_KEY", "01"), ("CONDITION_KEY", "007"), ("PACKAGE_KEY", "010P"), ("REPEATABILITY", "0..1"),
+                          ("MODAL_MARK", "muss"), ("PREFIX_OPERATOR", "x"), ("CONDITION_EXPRESSION", " [1] u [2]\t∧ [03] "), ("TIME_CONDITION_KEY", "UB1")):
+        out = run_hook(model, h, tok.qualname, lambda it, ttype=ttype, tvalue=tvalue: {"type": ttype, "value": tvalue})
+        ctx.count()
+        ctx.ob("C19.tree", f"TokenSchema::post_load::{ttype}:{tvalue!r}", out[0] == "ret" and isinstance(out[1], Obj) and out[1].cls == "lark.Token" and out[1].fields == {"type": ttype, "value": tvalue},
+               f"TokenSchema.{h.name} turns the dumped token ({ttype}, {tvalue!r}) into {out[:2]}: the value must come back unchanged", file=tok.file, line=h.node.lineno, function=h.qualname)
     h = post_load_hook(model, tot, "post_load")
     tk = token("CONDITION_KEY", "3")
     for label, data, want in (("tree", {"tree": t, "token": None}, t), ("token", {"token": tk, "tree": None}, tk), ("token-only", {"token": tk}, tk)):
